@@ -17,6 +17,10 @@ FLAVOURS = {
     'multi': dict(cxx='g++', flags=['-std=gnu++17', '-O1', '-g', '-fsanitize=address'], libs=['-lrapidcheck']),
     'tsan': dict(cxx='clang++', flags=['-std=gnu++17', '-O1', '-g', '-march=haswell', '-fsanitize=thread'],
                  libs=['-lrapidcheck', '-lpthread']),
+    # ThreadSanitizer again, in the configurations whose vector accesses it can see: clang's pass instruments accesses of up to 16
+    # bytes only (the 32-byte AVX2 loads of the haswell build are invisible to it), so the SSE build and a g++ build are added
+    'wtsan': dict(cxx='clang++', flags=['-std=gnu++17', '-O1', '-g', '-march=westmere', '-fsanitize=thread'], libs=['-lrapidcheck', '-lpthread']),
+    'gtsan': dict(cxx='g++', flags=['-std=gnu++17', '-O1', '-g', '-march=haswell', '-fsanitize=thread'], libs=['-lrapidcheck', '-lpthread']),
     'fuzz': dict(cxx='clang++', flags=['-std=gnu++17', '-O1', '-g', '-march=haswell', ASAN_SAN.replace('address', 'fuzzer,address'),
                                        '-fno-sanitize-recover=all', '-DVF_FUZZ'], libs=['-lrapidcheck']),
     # dynamic dispatch (ifunc resolvers pick the AVX2 clones on this host) under g++ ASan
@@ -61,6 +65,7 @@ PROPS['C01'] = dict(
         U(c01, 'rc', 3000, 60000, wq=4, wt=6, label='c01-rc'),
         U(c01, 'prng', 60000, 3000000, wq=4, wt=6, label='c01-prng'),
         U(B('c01_parse', 'c01_parse.cpp', 'wasan'), 'prng', 30000, 1500000, wq=2, wt=3, label='c01-sse-asan'),
+        U(B('c01_parse', 'c01_parse.cpp', 'prod'), 'prng', 60000, 3000000, wq=2, wt=3, label='c01-prod'),
         U(B('c01_parse', 'c01_parse.cpp', 'dynasan'), 'prng', 30000, 1500000, wq=2, wt=3, label='c01-dynamic-asan'),
         F(fz01, 20, 600, wq=4, wt=4, label='fz_parse', dict='fuzz/json.dict', seeds='fuzz/seeds/json'),
     ],
@@ -68,13 +73,15 @@ PROPS['C01'] = dict(
     rule='cases: valid texts rendered from generated values with random layouts, single/double-fault mutants '
          '(truncation, byte replace/insert/delete, comma/colon/bracket faults, bad numbers, bad literals, control bytes, '
          'bad escapes, unterminated strings), nesting stress and every prefix of small documents, each at pad offsets 0..70; '
+         'a quarter of the texts and every prefix sweep are repeated on a document (pool inside a caller-supplied buffer) that parsed '
+         'a longer valid text before, Clear()ed in between or not: stale bytes of the earlier text lie behind the new one; '
          'plus coverage-guided byte strings (libFuzzer). Oracle: independent RFC 8259 recogniser (accept <=> success), '
          'offset==len on success, null document + parse-family code + offset in [0,len] on failure, code names the fault '
          'class when the first fault is unambiguous, verdict/value invariant under the pad. Non-trivial: text has >= 2 bytes '
          'and the verdict is not decided at byte 0; distinct = distinct pick sequence + text hash (fuzz: corpus units).',
     min_evaluations=dict(quick=20000, thorough=500000),
     required_classes=['valid', 'invalid:structural', 'invalid:truncated', 'invalid:ctrl-in-string', 'invalid:bad-escape',
-                      'invalid:bad-unicode-hex', 'invalid:number-overflow', 'mode:prefixes', 'mode:nesting'],
+                      'invalid:bad-unicode-hex', 'invalid:number-overflow', 'mode:prefixes', 'mode:nesting', 'document:recycled-after-Clear'],
     assumptions=['texts whose only questionable feature is an unpaired surrogate escape are judged by C05, not here'],
 )
 
@@ -93,12 +100,13 @@ PROPS['C03'] = dict(
     harness_alias={'fz_value': 'c03_value'},
     rule='cases: model values (all kinds, depth <= 12, 0..130 children, duplicate keys, strings with escapes/UTF-8/control bytes, '
          'boundary integers and doubles) rendered with random layouts (whitespace runs up to 200 bytes, leading pad 0..130, a '
-         'bracket forced onto offset 63/64/65 of a block), parsed with the pool and the freeing allocator; plus libFuzzer byte '
+         'bracket forced onto offset 63/64/65 of a block), parsed with the pool and the freeing allocator into a fresh document, a '
+         'document that parsed a longer text before, the same after Clear() of its pool, or one whose previous parse failed; plus libFuzzer byte '
          'strings that the reference accepts. Oracle: accessor-API walk of the document == generating value == refjson parse '
          '(kinds and double bits exact, member order and duplicates kept); FindMember returns the first match; lookups and '
          'AtPointer agree. Non-trivial: a container with >= 2 children, or a whitespace run >= 64, or depth >= 3.',
     min_evaluations=dict(quick=8000, thorough=200000),
-    required_classes=['dup-keys', 'ws-run>=64', 'forced-bracket-at-block-edge', 'alloc:pool', 'alloc:freeing', 'depth=6+'],
+    required_classes=['dup-keys', 'ws-run>=64', 'forced-bracket-at-block-edge', 'alloc:pool', 'alloc:freeing', 'depth=6+', 'document:reparsed-after-pool-Clear', 'document:reparsed-after-failed-parse'],
 )
 
 c02 = B('c02_safety', 'c02_safety.cpp', 'asan')
@@ -114,14 +122,19 @@ PROPS['C02'] = dict(
         U(c02, 'rc', 1500, 30000, wq=2, wt=3, label='c02-asan-rc', asan_options=FILL % 0xbe),
         U(c02p, 'prng', 15000, 500000, wq=2, wt=3, label='c02-prod-perturb'),
         U(B('c02_safety', 'c02_safety.cpp', 'wasan'), 'prng', 10000, 400000, wq=2, wt=2, label='c02-sse-asan', asan_options=FILL % 0x0c),
+        U(B('c02_safety_adaptive', 'c02_safety.cpp', 'asan', defines=['-DSONIC_ADAPTIVE_MEMORYPOOL'], harness='c02_safety'), 'prng', 12000, 400000, wq=2, wt=3,
+          label='c02-adaptive-pool-build', asan_options=FILL % 0x06),
         F(fz02, 15, 600, wq=3, wt=4, label='fz_safety', dict='fuzz/json.dict', seeds='fuzz/seeds/safety', field='raw',
           asan_options=FILL % 0x0c),
     ],
     harness_alias={'fz_safety': 'c02_safety'},
     rule='cases: (text, allocator kind, history). Texts: valid, single/double-fault mutants, nesting stress up to depth 1000, '
-         'wide+deep containers with a failure injected at depth 1..20, libFuzzer byte strings. Allocator kinds: pool, '
+         'wide+deep containers (0..300 children, 1 in 12: 2047..9000 children; 1 in 40 of the nesting texts longer than 64 KiB: single '
+         'pool requests around and above the chunk cap) with a failure injected at depth 1..20, libFuzzer byte strings. Allocator kinds: pool, '
          'SimpleAllocator (really frees), tracking allocator (ledger), pool with adaptive chunk policy, pool working inside a '
-         'caller-supplied buffer (64..4096 bytes at offset 0..7 of a heap block of exactly that size). Histories: fresh; '
+         'caller-supplied buffer (64..4096 bytes at offset 0..7 of a heap block of exactly that size); one unit is built with '
+         '-DSONIC_ADAPTIVE_MEMORYPOOL (every pool then starts with 1 KiB chunks and grows them - without it the adaptive policy '
+         'starts saturated at 64 KiB). Histories: fresh; '
          'valid-then-input; input twice; input-then-valid-then-serialise; input then move-assign; move-construct; swap. '
          'Oracle: ASan+LSan and a reduced UBSan set with heap fill bytes 0x0c/0x06/0x07/0xbe (an unconstructed node then looks '
          'like an owned string/object/array), tracking-allocator ledger (no foreign/double free, nothing live after '
@@ -129,7 +142,7 @@ PROPS['C02'] = dict(
          'independent of the perturbation, same outcome when parsed twice, document reusable and correct after a failure. '
          'Non-trivial: invalid with a container open or >1 byte consumed, or valid with depth >= 2.',
     min_evaluations=dict(quick=20000, thorough=500000),
-    required_classes=['alloc:pool', 'alloc:freeing', 'alloc:tracking', 'alloc:adaptive-pool', 'alloc:pool-in-user-buffer', 'user-buffer:misaligned', 'invalid@depth4+', 'valid',
+    required_classes=['alloc:pool', 'alloc:freeing', 'alloc:tracking', 'alloc:adaptive-pool', 'alloc:pool-in-user-buffer', 'user-buffer:misaligned', 'wide:>=2047-children', 'text>64KiB', 'invalid@depth4+', 'valid',
                       'history:0', 'history:6'],
     assumptions=['MemorySanitizer is unusable here (uninstrumented libstdc++): acting on uninitialised values is detected '
                  'through its influence on behaviour under heap-fill perturbation, not as every uninitialised read'],
@@ -159,13 +172,13 @@ PROPS['C05'] = dict(
          'malformed \\u, unpaired/misordered surrogates, runs of consecutive escapes; fillers plain ASCII, ASCII mixed with '
          'bytes >= 0x80, or any unescaped-legal byte; one case in three has a valid escape before the feature (post-escape '
          'decoder path); AVX2 and SSE (-march=westmere) sanitizer builds; contexts: root value, array element, '
-         'object key+value, on-demand key, UpdateLazy key, and the decoding kernel called directly on a padded buffer (in the '
+         'object key+value, on-demand key, a member name the on-demand scan has to step over before a longer wanted key, UpdateLazy key, and the decoding kernel called directly on a padded buffer (in the '
          'runtime-dispatch build: the dispatcher, the SSE clone and the AVX2 clone); plus libFuzzer over literal bodies. Oracle: refjson.unescape '
          '(accept/reject, decoded bytes, error class when the literal holds one fault kind). Non-trivial: invalid literal, '
          'or >= 16 bytes with an escape, or a control/high byte.',
     min_evaluations=dict(quick=200000, thorough=3000000),
     required_classes=['feature:short-escape', 'feature:u-pair', 'feature:high-surrogate-unpaired', 'feature:low-surrogate-first',
-                      'feature:raw-control', 'feature:escape-run', 'ctx:key', 'ctx:ondemand-key', 'ctx:updatelazy-key', 'ctx:kernel',
+                      'feature:raw-control', 'feature:escape-run', 'ctx:key', 'ctx:ondemand-key', 'ctx:updatelazy-key', 'ctx:kernel', 'ctx:ondemand-scan-over-key',
                       'escape-before-feature+high-bytes'],
 )
 
@@ -206,6 +219,7 @@ PROPS['C07'] = dict(
         U(c07, 'prng', 250000, 8000000, wq=4, wt=8, label='c07-asan'),
         U(c07p, 'prng', 900000, 40000000, wq=4, wt=8, label='c07-prod'),
         U(c07, 'rc', 5000, 100000, wq=1, wt=2, label='c07-rc'),
+        U(c07p, 'prng', 300000, 10000000, wq=2, wt=3, label='c07-daz-ftz', args=['--daz']),
     ],
     rule='cases: finite doubles from strata - every biased exponent 0..2046 in rotation with random and boundary significands '
          '(0 = irregular power of two, 1, 2^52-1, 2^51...), subnormals by leading bit, integer-valued doubles and powers of ten, '
@@ -214,7 +228,8 @@ PROPS['C07'] = dict(
          'fraction or exponent; length <= 32 and no write outside a 33-byte block (ASan heap block / canary); no decimal with '
          'one digit fewer reads back (nearest candidate and both neighbours, via glibc %.*e); out is the closest candidate of '
          'its length that reads back (exact expansion consulted for ties and irregular intervals); Document::Parse(out) gives '
-         'the same bits; for a sample (a quarter of the 24/25-byte spellings, 1/64 of the rest) the double is serialised at the end of '
+         'the same bits; one unit calls the printing routine with MXCSR.DAZ|FTZ set (its output must not depend on the caller\'s '
+         'floating-point environment); for a sample (a quarter of the 24/25-byte spellings, 1/64 of the rest) the double is serialised at the end of '
          'a document with every amount of space 18..48 bytes left in a 96-byte write buffer (ASan: first byte beyond the block). '
          'Non-trivial: not an integer below 2^53.',
     min_evaluations=dict(quick=500000, thorough=10000000),
@@ -238,7 +253,8 @@ PROPS['C08'] = dict(
          'values, sharded over 4 workers, in both the sanitizer and the production build - exhaustive for that sub-domain in '
          'every run) plus Utoa_16 on 64 (hi,lo) pairs per block; (b) composition U64toa/I64toa on 10^k-1,10^k,10^k+1, 2^k-1,2^k,'
          '2^k+1, UINT64_MAX, INT64_MIN/MAX, every digit count 1..20, 8-digit groups equal to 0/1/99999999, random values, as '
-         'signed and unsigned, directly and through Serialize+Parse; (c) 1 case in 24: documents holding 1..300 integers (flat '
+         'signed and unsigned, directly and through Serialize+Parse (half of these on a node that held a negative / positive / '
+         'large unsigned integer, a double, a string, null or an array before); (c) 1 case in 24: documents holding 1..300 integers (flat '
          'array, arrays nested 1..6 deep, object values, [int,"text"] pairs; full-width / small / mixed magnitudes) serialised '
          'into write buffers of capacity 0..1024, fresh or reused, so that buffer growth steps land on integers; a tenth of these also with four threads serialising '
          'documents of their own at the same time. Oracle: snprintf; length and 33-byte write bound (ASan '
@@ -246,7 +262,7 @@ PROPS['C08'] = dict(
          'kernel evaluations as oracle sub-evaluations.',
     min_evaluations=dict(quick=50000000, thorough=200000000),
     required_classes=['kernel-block', 'class:pow10-boundary', 'class:pow2-boundary', 'class:digit-count', 'class:group-pattern',
-                      'signed', 'unsigned', 'class:container', 'container:outgrows-initial-buffer', 'write-buffer-edge-sweep'],
+                      'signed', 'unsigned', 'class:container', 'container:outgrows-initial-buffer', 'write-buffer-edge-sweep', 'node-held-another-value-before'],
 )
 
 c09 = B('c09_quote', 'c09_quote.cpp', 'asan')
@@ -262,13 +278,18 @@ PROPS['C09'] = dict(
         U(B('c09_quote', 'c09_quote.cpp', 'dyn'), 'prng', 300000, 8000000, wq=2, wt=2, label='c09-dynamic'),
         U(B('c09_quote', 'c09_quote.cpp', 'dynasan'), 'prng', 150000, 4000000, wq=2, wt=2, label='c09-dynamic-asan'),
         U(c09, 'rc', 4000, 100000, wq=1, wt=2, label='c09-rc'),
+        U(B('c17_threads', 'c17_threads.cpp', 'wtsan'), 'prng', 300, 12000, wq=2, wt=3, label='c09-tsan-sse-borrowed-strings', args=['--scenario', '3'],
+          replay_reps=20, replay_timeout=120, cap_s=dict(quick=40, thorough=600)),
+        U(B('c17_threads', 'c17_threads.cpp', 'gtsan'), 'prng', 300, 12000, wq=2, wt=3, label='c09-tsan-gcc-borrowed-strings', args=['--scenario', '3'],
+          replay_reps=20, replay_timeout=120, cap_s=dict(quick=40, thorough=600)),
     ],
     rule='cases: byte strings of length 0..200 (+500, 1000), every length around the 16/32-byte block sizes; contents: one '
          'arbitrary byte at one offset 0..69 of a plain string, dense/sparse mixes of quote, backslash, control and high bytes, '
          'all-escape strings (6x worst case), uniformly random bytes; source placement: heap block of exact size, ending on the '
          'last byte before a PROT_NONE page, inside a page with 1..4095 bytes after it, starting right after a PROT_NONE page; '
          'destination: exactly 6*len+32+3 bytes ending at a PROT_NONE page; production (g++ -O2, haswell and westmere) and '
-         'sanitizer builds. Oracle: scalar matcher from the statement (verbatim bytes, escapes decode to the byte, quotes '
+         'sanitizer builds; plus, under ThreadSanitizer (harness c17_threads, scenario D), threads serialising documents whose '
+         'strings borrow bytes that lie directly in front of memory other threads write. Oracle: scalar matcher from the statement (verbatim bytes, escapes decode to the byte, quotes '
          'around), emitted length <= 6*len+2, no fault (in the runtime-dispatch builds the SSE clone and the AVX2 clone are also '
          'called directly, since the resolver would only ever pick one of them on this host), output unchanged when the bytes after the string are replaced by '
          'quotes/backslashes/control bytes, Serialize of a string node gives the same bytes. Non-trivial: >= 1 escaped byte, '
@@ -296,11 +317,12 @@ PROPS['C14'] = dict(
          'byte pairs cover the sign cases (00/01, 7f/80, ff/00, ...); both operands placed independently: heap block of exact '
          'size, ending 0..40 bytes before a PROT_NONE page, at any offset inside a page; a quarter of the cases go through the '
          'API (object built with such keys, probe key placed at a page end, FindMember by view and by pointer+length, HasMember, '
-         'with and without CreateMap, pool and freeing allocators). Builds: production haswell (in-page 32-byte fast path live), '
+         'with and without CreateMap, pool and freeing allocators; a third of these also with probes that alias a stored name: same '
+         'start address as a member name but another length, and borrowed keys that are slices of one buffer). Builds: production haswell (in-page 32-byte fast path live), '
          'sanitizer, static westmere, dynamic dispatch. Oracle: memcmp (equality and sign), model lookup (first match without a '
          'map), no fault. Non-trivial: len >= 1 with a mismatch or an operand within 32 bytes of a page end.',
     min_evaluations=dict(quick=500000, thorough=10000000),
-    required_classes=['level:kernel', 'level:api', 'api:map', 'api:linear', 'placeA:page-end', 'mismatch', 'equal'],
+    required_classes=['level:kernel', 'level:api', 'api:map', 'api:linear', 'placeA:page-end', 'mismatch', 'equal', 'api:aliasing-probes'],
 )
 
 c10 = B('c10_ondemand', 'c10_ondemand.cpp', 'asan')
@@ -319,7 +341,7 @@ PROPS['C10'] = dict(
     harness_alias={'fz_ondemand': 'c10_ondemand'},
     rule='cases: (valid text, path). Texts: generated values (empty containers in every position, duplicate keys, keys needing '
          'escapes, keys/strings containing []{}",:\\, depth <= 7) rendered with random layouts (whitespace runs > 64, pad '
-         '0..130, escaped spellings of keys). Paths (4 per text): existing paths, and wrong continuations of prefixes of '
+         '0..130, escaped spellings of keys; 1 text in 30 with a sibling value holding 100..700 small containers). Paths (4 per text): existing paths, and wrong continuations of prefixes of '
          'existing paths: absent key, prefix/extension of a key, key of another object, index == size / size+1 / size+1000 / '
          'INT_MAX / -1 / INT_MIN, index into object, key into array, any step into an empty container, steps below a scalar, '
          'a key equal to the raw (still escaped) spelling of a member name. '
@@ -330,7 +352,7 @@ PROPS['C10'] = dict(
     min_evaluations=dict(quick=100000, thorough=2000000),
     required_classes=['hit:existing', 'miss:absent-key', 'miss:index==size', 'miss:index-into-empty-array', 'miss:index==-1',
                       'miss:key-into-empty-object', 'miss:index-below-scalar', 'path-with-escaped-key', 'miss:key-of-another-object',
-                      'miss:raw-spelling-of-escaped-key'],
+                      'miss:raw-spelling-of-escaped-key', 'sibling-with-hundreds-of-containers'],
 )
 
 c11 = B('c11_ondemand_raw', 'c10_ondemand.cpp', 'asan', defines=['-DVF_C11'])
@@ -470,7 +492,7 @@ PROPS['C20'] = dict(
     title='UpdateLazy is a faithful recursive object merge',
     units=[
         U(c20, 'rc', 3000, 80000, wq=3, wt=4, label='c20-rc'),
-        U(c20, 'prng', 60000, 3000000, wq=6, wt=10, label='c20-prng'),
+        U(c20, 'prng', 45000, 3000000, wq=6, wt=10, label='c20-prng'),
         U(B('c20_lazy', 'c20_lazy.cpp', 'wasan'), 'prng', 25000, 1200000, wq=2, wt=3, label='c20-sse-asan'),
         U(B('c20_lazy', 'c20_lazy.cpp', 'prod'), 'prng', 60000, 3000000, wq=3, wt=4, label='c20-prod'),
         F(fz20, 15, 600, wq=2, wt=2, label='fz_lazy', field='raw', dict='fuzz/json.dict', seeds='fuzz/seeds/lazy'),
@@ -479,14 +501,15 @@ PROPS['C20'] = dict(
     rule='cases: pairs (target text, source text) rendered from duplicate-free generated values: every kind combination at the '
          'root (scalar/array/object/empty object), nested objects up to depth 6, objects of 0..40 members, keys from a shared '
          'pool incl. the empty key and keys needing escapes on output (quote, backslash, tab, newline, 0x01, UTF-8), the source '
-         'made to share about half of the target keys at each level; the two sides rendered independently with random layouts '
+         'made to share about half of the target keys at each level; 1 case in 25 with a member value holding 100..700 small '
+         'containers of its own kind (counts around 255/256/512 dense); the two sides rendered independently with random layouts '
          'and random escaped/unescaped key spellings; plus libFuzzer (target NUL source). Oracle: merge_lazy() transcribed from '
          'the statement on decoded keys; refjson accepts the result and parses it to the model (as key->value maps and in '
          'target-order-then-appended order); no duplicate keys appear. Non-trivial: a common key at the root or an escape in '
          'either text.',
     min_evaluations=dict(quick=100000, thorough=2000000),
     required_classes=['common-key', 'root:obj<-obj', 'root:empty-obj<-obj', 'root:obj<-empty-obj', 'root:obj<-scalar', 'root:scalar<-obj',
-                      'escape-on-one-side-only', 'large-target-object'],
+                      'escape-on-one-side-only', 'large-target-object', 'value-with-hundreds-of-containers'],
     technique='model-based differential property testing (rapidcheck + seeded PRNG + libFuzzer) against a merge model transcribed from the statement',
 )
 
@@ -502,17 +525,17 @@ PROPS['C18'] = dict(
     rule='cases: a duplicate-free value v, a partner w that is v or v with exactly one change (leaf value / bit, 1 vs 1.0, sign, '
          '0.0 vs -0.0, number vs its digits as a string, string longer/shorter/one byte, null/false/true, [] vs {}, array '
          'element added/removed/two different elements swapped, member dropped/added, key renamed to same length/longer/prefix), '
-         'two (three) construction histories out of 11: parse compact, parse with heavy whitespace, mutation-API build, build '
+         'two (three) construction histories out of 12: parse compact, parse with heavy whitespace, mutation-API build, build '
          'with members permuted at every level, CopyFrom (source destroyed), parse of Dump, nodes that previously held another '
          'kind, extra capacity (Reserve + add/remove), lookup maps on every object, lookup maps created before the members are added (keys passed through a scratch buffer '
-         'that is overwritten afterwards), borrowed constant strings; pool and freeing '
+         'that is overwritten afterwards), the same with a member <key>_ added and removed again in the slot of the last member, borrowed constant strings; pool and freeing '
          'allocators incl. cross-type comparison; sanitizer build and production build (g++ -O2: the in-page fast paths of the key '
          'comparison are live only there). Oracle: (a==b) == model equality (objects as maps, numbers by kind and bits); '
          'b==a agrees; != is the negation; a==a; deep copy and parse of the serialised text are equal; transitivity on an '
          'equal-by-construction triple. Non-trivial: a container with >= 2 children.',
     min_evaluations=dict(quick=100000, thorough=2000000),
     required_classes=['equal-pair', 'unequal-pair', 'alloc:cross-type', 'hist:build-permuted', 'hist:with-map', 'hist:prior-kind',
-                      'hist:const-strings', 'hist:extra-capacity', 'hist:copy', 'hist:map-first'],
+                      'hist:const-strings', 'hist:extra-capacity', 'hist:copy', 'hist:map-first', 'hist:map-churn'],
 )
 
 c16 = B('c16_pool', 'c16_pool.cpp', 'asan')
@@ -528,7 +551,9 @@ PROPS['C16'] = dict(
          'user buffer: 64..4096 bytes, aligned or misaligned), Malloc, Realloc (null pointer, last / not last / older block, '
          'shrink, same, grow, to 0), Clear, copy-construct, copy-assign (also self and onto a moved-from handle), '
          'move-construct, move-assign, destroy; sizes from {0, 1..48, 1/7/8/9/15/16/17, cap-8/cap-1/cap/cap+1/2cap/cap/2, '
-         'remaining-8/remaining-1/remaining/remaining+1 of the current chunk, random up to 200 KiB}. Oracle (model = live blocks '
+         'remaining-8/remaining-1/remaining/remaining+1 of the current chunk, random up to 200 KiB}; one Malloc in 12 and one '
+         'Realloc in 8 meets a base allocator that refuses its next request (a null result is then legitimate and must change '
+         'nothing). Oracle (model = live blocks '
          'per pool + chunks recorded by a tracking base allocator): non-null results 8-aligned, wholly inside one chunk past '
          'its header (or the user buffer), disjoint from every live block; every live block carries a byte pattern re-verified '
          'after EVERY step; Realloc keeps the first min(old,new) bytes, returns the same pointer when the new size fits, grows '
@@ -540,7 +565,7 @@ PROPS['C16'] = dict(
     min_evaluations=dict(quick=30000, thorough=500000),
     required_classes=['event:chunk-overflow', 'event:realloc-in-place', 'event:realloc-last-across-chunk', 'event:realloc-not-last',
                       'event:clear', 'event:copy-construct', 'event:copy-assign', 'event:move-assign', 'event:last-copy-destroyed',
-                      'event:user-buffer', 'event:user-buffer-misaligned', 'policy:simple', 'policy:adaptive'],
+                      'event:user-buffer', 'event:user-buffer-misaligned', 'policy:simple', 'policy:adaptive', 'event:base-refusal-in-realloc'],
     technique='stateful model-based property testing (rapidcheck + seeded PRNG operation sequences) against a block/chunk ledger',
     assumptions=['leak detection is off for this harness: a pool copied before its first chunk allocation (user buffer, no base allocator) '
                  'leaks its 1-byte owned base-allocator object - outside the statement of C16 (see DESIGN.md section 5)'],
@@ -554,6 +579,8 @@ PROPS['C17'] = dict(
         U(c17, 'prng', 500, 20000, wq=4, wt=6, label='c17-tsan', replay_reps=20, replay_timeout=120, cap_s=dict(quick=45, thorough=900)),
         U(c17, 'rc', 200, 5000, wq=2, wt=2, label='c17-tsan-rc', replay_reps=20, replay_timeout=120, cap_s=dict(quick=45, thorough=900)),
         U(c17l, 'prng', 300, 10000, wq=4, wt=6, label='c17-tsan-locked', replay_reps=20, replay_timeout=120, cap_s=dict(quick=45, thorough=900)),
+        U(B('c17_threads', 'c17_threads.cpp', 'wtsan'), 'prng', 300, 12000, wq=3, wt=4, label='c17-tsan-sse', replay_reps=20, replay_timeout=120, cap_s=dict(quick=45, thorough=900)),
+        U(B('c17_threads', 'c17_threads.cpp', 'gtsan'), 'prng', 300, 12000, wq=3, wt=4, label='c17-tsan-gcc', replay_reps=20, replay_timeout=120, cap_s=dict(quick=45, thorough=900)),
     ],
     rule='cases: thread scripts for 2..8 threads, generated on the main thread and then executed 4x behind a start barrier under '
          'ThreadSanitizer. (A) every thread owns its documents: Parse of valid and mutated texts (pool and freeing allocator), '
@@ -562,12 +589,14 @@ PROPS['C17'] = dict(
          'start (with or without lookup maps, pool or freeing allocator) and then only const operations from all threads: type '
          'tests, getters, iteration, FindMember (view and pointer+length), HasMember, operator[] with existing and MISSING keys, '
          'AtPointer, Dump, Serialize into a thread-local buffer, == against a thread-local copy. (C, second binary built with '
-         '-DSONIC_LOCKED_ALLOCATOR) all threads Malloc/Realloc from one shared pool and parse on documents bound to it. Oracle: '
+         '-DSONIC_LOCKED_ALLOCATOR) all threads Malloc/Realloc from one shared pool and parse on documents bound to it. (D) half of the '
+         'threads serialise documents of their own whose strings and keys borrow name bytes of a shared record array while the other '
+         'half write the counters that lie directly behind those names. Oracle: '
          'ThreadSanitizer silent (halt_on_error); every thread result equals the single-threaded result of the same script; in '
          '(C) all blocks 8-aligned, pairwise disjoint, patterns intact. evaluations counts thread executions as sub-evaluations.',
     min_evaluations=dict(quick=2000, thorough=50000),
     required_classes=['scenario:own-documents', 'scenario:shared-const-document', 'scenario:shared-locked-pool',
-                      'shared:operator[]-missing-key', 'shared:with-map'],
+                      'shared:operator[]-missing-key', 'shared:with-map', 'scenario:borrowed-strings-next-to-foreign-writes'],
     technique='generated multi-threaded scripts under ThreadSanitizer (happens-before race detection) with post-join differential against single-threaded results',
     assumptions=['a race on a path no generated script executes is invisible; lock liveness and weak-memory effects beyond TSan are not addressed'],
 )
